@@ -1,6 +1,6 @@
 """C05 result columns are exactly the final frame: names, count and order."""
 import collections, itertools, json, random, re
-import vlib, relgen, relcheck, starexpand, sstrgen
+import vlib, relgen, relcheck, starexpand, sstrgen, c05frames
 from vlib import vh_batch, drv_batch
 from props.c01 import SAFE, FULL, UNDECL
 
@@ -216,8 +216,10 @@ def run(ctx):
         ctx.coverage_extra["hook_suites"] = "skipped: /repo does not build with feature `verif`"
 
     # (ii) result columns vs final frame
-    def explore(label, rng, n, prof, target="sql.sqlite"):
-        cases = [relgen.make_case(rng, **prof) for _ in range(n)]
+    EXPANSION = re.compile(r"select !\{|this\.\*|group \{[^}]*\} \((?!aggregate)")
+
+    def explore(label, rng, n, prof, target="sql.sqlite", cases=None):
+        cases = cases if cases is not None else [relgen.make_case(rng, **prof) for _ in range(n)]
         comp = vh_batch([{"op": "compile", "prql": c.prql, "target": target} for c in cases])
         rqs = vh_batch([{"op": "rq", "prql": c.prql} for c in cases])
         for c, a, q in zip(cases, comp, rqs):
@@ -236,6 +238,21 @@ def run(ctx):
             ok = len(names) == len(expect) and all(e is None or e == n for e, n in zip(expect, names))
             if not has_star and [x for x in frame if x is not None] and sorted(x for x in frame if x) != sorted(c.columns) and len(frame) == len(c.columns):
                 ctx.count(f"{label}:generator-frame-differs-from-rq-frame")
+            if ok and not has_star and names != c.columns:
+                # the result agrees with the compiler's OWN final frame (RQ), but that frame is not the frame of the program (frame
+                # semantics of the generator: a resolver that loses, merges or renames a column takes the RQ with it)
+                perm = len(names) == len(c.columns) and sorted(names) == sorted(c.columns)
+                r = {"status": "column-count" if len(names) != len(c.columns) else "names-differ", "detail": "", "sql": a["sql"], "names": names}
+                if perm and EXPANSION.search(c.prql):
+                    fid = c05frames.ORDER_CLASS        # recorded (C11, also C05): an expansion of the whole frame lists it by Decl.order, ties in HashMap order
+                else:
+                    fid = relcheck.classify(c, r, target)
+                ctx.count(f"{label}:rq-frame-met-but-not-the-program's-frame")
+                ctx.oracle_failure(fid, f"result columns {names} (= the RQ's final frame) but the frame of the program is {c.columns}",
+                                   {"prql": c.prql, "target": target, "sql": a["sql"], "observed_columns": names, "expected_columns": c.columns,
+                                    "rq_columns": frame, "db": c.db, "schema": c.schema_list, "class": fid},
+                                   det_key=None if (label in ("seed", "generic") or fid == c05frames.ORDER_CLASS) else (c.prql, target))
+                continue
             if ok:
                 if len(ctx.samples) < 4 and len(names) >= 3 and ("join" in c.prql or has_star):
                     ctx.sample({"prql": c.prql.split("}\n", 1)[-1], "sql": a["sql"][:300], "result_columns": names, "frame": expect})
@@ -246,10 +263,14 @@ def run(ctx):
             if fid is None and len(names) == len(expect) and sorted(map(str, names)) == sorted(map(str, expect)) and \
                     re.search(r"group \{[^}]*\} \((?:sort \{[^}]*\} \| )?take", c.prql):
                 fid = "column-order-after-group-take"
+            if fid is None and label == "dup-names-systematic" and not has_star and len(names) == len(expect) and EXPANSION.search(c.prql) and \
+                    sorted(map(str, names)) == sorted(map(str, expect)) == sorted(c.columns):
+                # the two compilations (SQL, RQ) of one program list an expanded frame in different orders (C11, also C05; varies from call to call)
+                fid = c05frames.ORDER_CLASS
             ctx.oracle_failure(fid, f"result columns {names} but the final frame is {expect}",
                                {"prql": c.prql, "target": target, "sql": a["sql"], "observed_columns": names, "expected_columns": expect,
                                 "rq_columns": frame, "db": c.db, "schema": c.schema_list, "class": fid},
-                               det_key=None if label in ("seed", "generic") else (c.prql, target))
+                               det_key=None if (label in ("seed", "generic") or fid == c05frames.ORDER_CLASS) else (c.prql, target))
 
     # (iii) the alias layer: a final select that renames every column, with aliases chosen to be confusable with source names
     def adversarial_aliases(rng, names):
@@ -372,6 +393,46 @@ def run(ctx):
                                     "source_columns": c.src.names, "inner_sql": c.inner, "steps": c.steps, "class": fid or None},
                                    det_key=(c.prql, target) if det else None)
 
+    # (vi) frames whose columns are hard to NAME: un-aliased expression columns through every transform (append naming an un-named top
+    # column after the bottom, CTE boundaries), names taken twice, columns only distinguishable by their qualifier under `select !{..}`
+    # / `group {..} (..)`.  Oracle: the frame semantics of the language, kept by the generator step by step (tools/c05frames.py)
+    fcon = c05frames.connect()
+
+    def frames_stream(label, cases, det, targets=("sql.sqlite",)):
+        for ti, target in enumerate(targets):
+            sub = cases if ti == 0 else cases[ti::5]
+            comp = vh_batch([{"op": "compile", "prql": c.prql, "target": target} for c in sub])
+            for c, a in zip(sub, comp):
+                if "sql" not in a:
+                    ctx.count(f"{label}:not-compiled" + (" (panic: C12's matter)" if "panic" in a else ""))
+                    continue
+                names, err = c05frames.names_of(fcon, a["sql"])
+                if err:
+                    ctx.count(f"{label}:sqlite-error (C01/C07 matter)")
+                    continue
+                ctx.case((c.prql, target), nontrivial=len(names) >= 2)
+                ctx.count(f"{label}:" + ("un-named column in the final frame" if None in c.expect else
+                                         "name carried twice in the final frame" if len(set(c.expect)) < len(c.expect) else "all named, distinct"))
+                for k in set(c.kinds) & {"app_bn", "app_bu", "app_mix", "app_tbl", "excl_twin", "excl_two", "excl_this", "grp_take_twin", "grp_take_two",
+                                         "grp_sort_take", "grp_take_inner", "grpagg_q", "der_shadow", "sel_twins", "star", "letb"}:
+                    ctx.count(f"{label}:step:{k}")
+                fid = c05frames.judge(c, names)
+                if fid is None:
+                    if len(ctx.samples) < 8 and det and len(names) >= 3 and ((None in c.expect and "append" in c.body) or
+                                                                             (len(set(c.expect)) < len(c.expect) and "select !{" in c.body)):
+                        ctx.sample({"prql": c.body, "sql": a["sql"][:300], "result_columns": names, "final_frame": c.expect})
+                    continue
+                # expansions over columns of several inputs come out in an order that varies from call to call: such inputs are not pinned
+                pinned = det and not (c.expansion and c.mixed)
+                ctx.oracle_failure(fid or None, f"result columns {names} but the final frame is {c.expect} (None = a column without a name)",
+                                   {"suite": "frames", "prql": c.prql, "target": target, "sql": a["sql"], "observed_columns": names,
+                                    "expected_columns": c.expect, "steps": c.kinds, "class": fid or None},
+                                   det_key=(c.prql, target) if pinned else None)
+
+    frames_stream("frames-unnamed", c05frames.unnamed_cases(3, 1 if quick else 3), True, ("sql.sqlite", "sql.generic"))
+    frames_stream("frames-qualified", c05frames.qualified_cases(3 if quick else 8, 0 if quick else 6), True, ("sql.sqlite", "sql.generic"))
+    frames_stream("frames-seed", c05frames.rand_cases(ctx.rng, 2500 if quick else 25000), False)
+
     inferred_stream("inferred-grid", sstrgen.grid(con, 3 if quick else 4, full=quick), True, ("sql.sqlite", "sql.generic", "sql.postgres"))
     inferred_stream("inferred-grid-steps", sstrgen.grid_steps(con, 2 if quick else 3), True)
     inferred_stream("inferred-told", sstrgen.told(con), True)
@@ -386,6 +447,8 @@ def run(ctx):
     explore("safe", random.Random(5053), 300 if quick else 2500, SAFE)
     explore("dup-names", random.Random(5054), 300 if quick else 2500, FULL)
     explore("wildcards", random.Random(5055), 300 if quick else 2500, UNDECL)
+    explore("dup-names-systematic", None, 0, FULL,
+            cases=relgen.systematic_cases(3 if quick else 4, FULL, kinds=["select", "join", "group_take", "exclude", "group_agg", "derive", "filter"]))
     explore("seed", ctx.rng, 200 if quick else 2500, FULL)
     explore("generic", ctx.rng, 100 if quick else 1000, SAFE, "sql.generic")
     ctx.obligation("oracle: result columns = final frame (all unlisted cases)", not [v for v in ctx.violations if v["kind"] == "failing-input"], "")
@@ -399,6 +462,15 @@ def replay(obj):
         m = drv_batch([wc_line(c, d, i)])[0]
         print(json.dumps({"cols": c, "decls": d, "instances": i, "recorded": {"real": r.get("real"), "model": r.get("model")}}, indent=1))
         print("now: real", wc_text(a), "| model", m, "| WF", wc_wf(c, d, i), "| judged:", wc_judge(c, d, i, a) or "ok")
+        return 0
+    if r.get("suite") == "frames":
+        con = c05frames.connect()
+        a = vh_batch([{"op": "compile", "prql": r["prql"], "target": r["target"]}])[0]
+        print(r["prql"])
+        print("steps:", r.get("steps"))
+        print("sql now:", a.get("sql", a))
+        print("result columns now:", c05frames.names_of(con, a["sql"]) if "sql" in a else None, "| expected (final frame, None = un-named):",
+              r["expected_columns"], "| recorded:", r["observed_columns"])
         return 0
     if r.get("suite") == "inferred":
         con = sstrgen.connect()
